@@ -8,6 +8,7 @@
 mod classif;
 mod clust;
 mod common;
+mod containers;
 mod layout;
 mod regr;
 mod roc;
@@ -44,6 +45,24 @@ fn run_case(case: &Case, viols: &mut Sink) -> Cnt {
         Case::Silhouette { .. } | Case::SilhouetteF { .. } => clust::run_silhouette(case, viols),
         Case::Layouts { base } => run_layouts(case, base, viols),
         Case::Scaled { base, factors } => run_scaled(case, base, factors, viols),
+        Case::Containers { base } => match &**base {
+            Case::Labels { ty, alphabet, pred, truth, .. } => match ty.as_str() {
+                "bool" => {
+                    let mut c = containers::containers_labels::<bool>(case, alphabet, pred, truth, viols);
+                    c.merge(containers::containers_with_labels::<bool>(case, alphabet, pred, truth, viols));
+                    c
+                }
+                "usize" => {
+                    let mut c = containers::containers_labels::<usize>(case, alphabet, pred, truth, viols);
+                    c.merge(containers::containers_with_labels::<usize>(case, alphabet, pred, truth, viols));
+                    c
+                }
+                _ => containers::containers_labels::<String>(case, alphabet, pred, truth, viols),
+            },
+            Case::Silhouette { points, labels, .. } => containers::containers_silhouette(case, points, labels, viols),
+            Case::Scores { scores, truth, .. } => containers::containers_scores(case, scores, truth, viols),
+            _ => panic!("no container check for this kind of case"),
+        },
         Case::Replicated { base, n, layouts } => {
             let long = expand(base, *n);
             let mut cnt = run_case(&long, viols);
@@ -330,6 +349,7 @@ fn main() {
          (L) memory layouts: a subset of (a)-(e) (see source: L-regression, L-scores, L-labels, L-silhouette, L-Pearson) with every input handed over as reversed view of a reversed copy, every-second / every-third element view of a poisoned parent, column-major owned matrix, transposed view of a feature-major matrix, reversed-row view, every-second-row / every-second-column view of a poisoned parent (all combinations of prediction and truth layout); the result must equal the standard-layout run (discrete outputs exactly, floats within twice the tolerance; the share of bit-identical values is reported); \
          (N) large inputs: bases of length 3,4,5,7,17,25 repeated cyclically to n = 1025 and n = 4097 rows for every metric family (silhouette at 4097: thorough only) incl. 17- and 33-column multi-target / Pearson matrices, through the same references (for n a multiple of the base length the reference must also equal the base's: closed form), also under the layouts; (F) silhouette in f32; \
          (S) scale: subsets of the regression / Pearson / silhouette / score catalogues with every value multiplied by 1e-12, 1e-8, 1e-5, 1e-2, 1e3, 1e8 (f64) or 1e-5, 1e-2, 1e3 (f32), Pearson and 3-column multi-target regression also with a different factor per column (1e-8 | 1 | 1e8 ...), scores by 0.5, 1e-3, 1e-6, 1e-12; scale-invariant scores (Pearson r, R2, explained variance, MAPE, silhouette, AUC) and scale-equivariant ones (max / mean / median absolute error, MSE) against the definition on the scaled values at the relative tolerance, without any absolute slack; silhouette additionally with every 4-labelling of 8 points (thorough: every 5-labelling of 10 points); \
+         (C) target containers: subsets of the label / silhouette / score catalogues with prediction and truth as array views, owned datasets, dataset views, CountedTargets built directly, `with_labels` results (requested labels = exactly the present ones / a superset with absent labels / a subset that drops samples / a subset plus an absent label), `one_vs_all` datasets, `map_targets` results (renamed to String, mapped to bool), `into_single_target` of standard and strided n x 1 target matrices - each against the definition on the raw (filtered / mapped) label vectors; one-sample regression vectors; silhouette with 1, 4, 5, 6, 7, 9 features at coordinate scale 0.125; \
          (e) Pearson: every matrix with 2..4 rows and 2..3 columns (quick) / up to 5 rows or 4 columns (thorough) over {-1,0,2} (and {-1,0,.5,2}), plus every 4x4 and 3x5 (thorough: 4x5) matrix over {-1,2} so that the order of the packed coefficients is observable. \
          Every case is additionally re-run under permutations applied to both sides: all n!-1 for small n (usize/String labels n<=4, bool n<=4/5, scores n<=4/5, regression n<=3/4, silhouette n<=4/5, Pearson rows<=4), the generating set {swap(0,1), rotation, reversal} beyond (the sweep visits every input, so invariance under generators at every input implies invariance under every permutation); quick runs the longest regression length without explicit permutations. \
          evaluations = distinct in-domain inputs run through all of their metrics; non-trivial = labels: >=2 classes and prediction != truth; scores: 0 < AUC < 1; regression: prediction != truth; silhouette: every in-domain labelling; Pearson: some |r| < 1.",
@@ -812,6 +832,68 @@ fn main() {
         if ctx.thorough() {
             groups.push(Group::Sil { points: (0..10).map(|i| vec![(i % 4) as f64, (i / 4) as f64 * 0.75]).collect(), k: 5, perms: "gen" });
         }
+    }
+
+    {
+        // (C) target containers + (1) one-sample / several-feature shapes
+        let mut cases: Vec<Case> = Vec::new();
+        let con = |c: Case| Case::Containers { base: Box::new(c) };
+        for n in 1..=ctx.pick(4usize, 5usize) {
+            for p in en::sequences(n, 2) {
+                for t in en::sequences(n, 2) {
+                    cases.push(con(Case::Labels { ty: "bool".into(), alphabet: strs(&["false", "true"]), pred: p.clone(), truth: t, perms: "none".into() }));
+                }
+            }
+        }
+        for (ty, alpha) in [("usize", strs(&["3", "7", "10", "42"])), ("string", strs(&["cat", "ant", "dog", "bee"]))] {
+            for n in 1..=ctx.pick(3usize, 4usize) {
+                for p in en::sequences(n, 3) {
+                    for t in en::sequences(n, 3) {
+                        cases.push(con(Case::Labels { ty: ty.into(), alphabet: alpha.clone(), pred: p.clone(), truth: t, perms: "none".into() }));
+                    }
+                }
+            }
+        }
+        // silhouette: 4- and 5-subsets of the lattice with every 2-labelling, 6-subsets (thorough: all; quick: those containing point 0) with every 3-labelling
+        for ss in en::subsets_upto(9, 4, 6) {
+            let n = ss.len();
+            if n == 6 && ctx.quick() && !(ss[0] == 0 && ss[1] == 1) {
+                continue;
+            }
+            let k = if n >= 6 { 3 } else { 2 };
+            for l in en::sequences(n, k) {
+                let points: Vec<Vec<f64>> = ss.iter().map(|&i| lat[i].iter().map(|&v| v as f64).collect()).collect();
+                cases.push(con(Case::Silhouette { points, labels: l.iter().map(|&i| SIL_LABEL_VALUES[i]).collect(), perms: "none".into() }));
+            }
+        }
+        // scores: every score vector of length 2..3 x every truth
+        for n in 2..=3usize {
+            for sv in en::sequences(n, 5) {
+                for t in en::sequences(n, 2) {
+                    cases.push(con(Case::Scores { scores: sv.iter().map(|&i| score_alpha[i]).collect(), truth: t.iter().map(|&x| x == 1).collect(), perms: "none".into() }));
+                }
+            }
+        }
+        // one-sample regression vectors (R2 / explained variance are out of domain, the other six are not)
+        for float in ["f64", "f32"] {
+            for a in &ralpha {
+                for b in &ralpha {
+                    cases.push(Case::Regr { float: float.into(), pred: vec![*a], truth: vec![*b], perms: "none".into(), forms: true });
+                }
+            }
+        }
+        // silhouette with 1, 4, 5, 6, 7 and 9 features (the distance sums run through ndarray's unrolled
+        // kernels): 6 points = lattice point + feature pattern, every 2-labelling, sub-unit scale 0.125
+        for d in [1usize, 4, 5, 6, 7, 9] {
+            for float in ["f64", "f32"] {
+                for l in en::sequences(6, 2) {
+                    let points: Vec<Vec<f64>> = (0..6).map(|i| (0..d).map(|j| 0.125 * (((i * (j + 2) + j * j) % 5) as f64 + if j == 0 { i as f64 } else { 0.0 })).collect()).collect();
+                    cases.push(Case::SilhouetteF { float: float.into(), points, labels: l.iter().map(|&i| SIL_LABEL_VALUES[i]).collect(), perms: "gen".into() });
+                }
+            }
+        }
+        ctx.extra("hardening.container_and_shape_cases_enumerated", json!(cases.len()));
+        chunked(&mut groups, cases, 300);
     }
 
     let enumerated: u64 = groups.iter().map(|g| g.size()).sum();
